@@ -24,6 +24,7 @@ def build_registry():
     codec.install_axioms(reg)
     shapefn.install_axioms(reg)
     numeric.install_axioms(reg)
+    polynomial.install_axioms(reg)
     for c in ALL_CONTRACTS.values():
         def model(ex, args, kw, node, _c=c):
             ex.reg.used.add("contract:" + _c.name)
